@@ -33,6 +33,9 @@ type epLoop struct {
 
 func runC17(c *Ctx) {
 	c.Trust("go/ssa")
+	// the record expanded is the record the indexer sent: its extended-provider parts are read under the keys they are written under
+	wireNamesAsReference(c, "C17.G5-wire-names", "find/model.ProviderInfo", "find/model.ExtendedProviders", "find/model.ContextualExtendedProviders")
+	c.Floor("C17.G5-wire-names", 3)
 	f := c.Func(pcachePkg, "ProviderCache.GetResults")
 	if f == nil {
 		c.Unk("C17.G1-index-bounded", "pcache.(*ProviderCache).GetResults", token.NoPos, "not found")
